@@ -135,7 +135,7 @@ def worker(chunk):
                 h = monitors.hang(pid, tr, sem)
                 if h:
                     viol[pid] = h
-        if monitors.plain_graph(tr['graph']) and 'error' not in sem:
+        if monitors.plain_graph(tr['graph']) and 'error' not in sem and sem.get('dflt_ok', True):
             # the hypotheses of the plain-fragment theorems hold on this program, and the reference evaluator
             # Sem (the monitors' oracle) solves the dataflow equations the theorems are stated about
             st = tr.setdefault('stats', {})
